@@ -182,28 +182,41 @@ def register_harness(res):
     wd = workdir("C18b-%s" % res.tier)
     # design level: all interleavings of the harness spec
     os.makedirs(GEN, exist_ok=True)
-    plans = [(1, 2, 1, "nondup", False), (1, 1, 2, "dup", True), (2, 1, 1, "ordered", False)]
+    plans = [(1, 2, 1, "nondup", False, False), (1, 1, 2, "dup", True, False), (2, 1, 1, "ordered", False, False),
+             (1, 1, 2, "dup", False, True), (1, 2, 1, "nondup", False, True)]
     if not q:
-        plans += [(1, 2, 1, "dup", True), (1, 2, 1, "ordered", True), (2, 2, 1, "nondup", False), (1, 1, 2, "nondup", True), (1, 3, 1, "nondup", False)]
-    for (S, C, P, net, lossy) in plans:
-        cfg = os.path.join(GEN, "MCRegisterHarness_%d_%d_%d_%s_%s.cfg" % (S, C, P, net, lossy))
-        open(cfg, "w").write("SPECIFICATION Spec\nCONSTANTS\n  S = %d\n  C = %d\n  PutCount = %d\n  NetKind = \"%s\"\n  Lossy = %s\n  MaxNet = 4\n"
+        plans += [(1, 2, 1, "dup", True, False), (1, 2, 1, "ordered", True, False), (2, 2, 1, "nondup", False, False), (1, 1, 2, "nondup", True, False),
+                  (1, 3, 1, "nondup", False, False), (1, 2, 1, "dup", True, True), (1, 2, 2, "nondup", False, True), (2, 1, 2, "ordered", False, True)]
+    for (S, C, P, net, lossy, wo) in plans:
+        cfg = os.path.join(GEN, "MCRegisterHarness_%d_%d_%d_%s_%s_%s.cfg" % (S, C, P, net, lossy, wo))
+        open(cfg, "w").write("SPECIFICATION Spec\nCONSTANTS\n  S = %d\n  C = %d\n  PutCount = %d\n  NetKind = \"%s\"\n  Lossy = %s\n  MaxNet = 4\n  WO = %s\n"
                              "CONSTRAINT Bound\nINVARIANT OneOutstanding\nINVARIANT HistoryWellFormed\nINVARIANT ClientsFollowProtocol\n"
-                             "INVARIANT AwaitingMatchesHistory\nCHECK_DEADLOCK FALSE\n" % (S, C, P, net, "TRUE" if lossy else "FALSE"))
+                             "INVARIANT AwaitingMatchesHistory\nCHECK_DEADLOCK FALSE\n" % (S, C, P, net, "TRUE" if lossy else "FALSE", "TRUE" if wo else "FALSE"))
         r = run_tlc("MCRegisterHarness.tla", cfg, workers=8, timeout=2400, heap="8g", name="mcreg")
-        res.add_tlc(r, "MCRegisterHarness[S=%d,C=%d,puts=%d,%s%s]" % (S, C, P, net, ",lossy" if lossy else ""))
+        res.add_tlc(r, "MCRegisterHarness[S=%d,C=%d,puts=%d,%s%s%s]" % (S, C, P, net, ",lossy" if lossy else "", ",write-once" if wo else ""))
         if not r["ok"]:
             raise ToolError("MCRegisterHarness: %s violated on the SPEC\n%s" % (r["violated"], r["out"][-3000:]))
     # real models
     systems = []
-    for (S, C, P, net, lossy) in plans + [(1, 2, 2, "nondup", False)]:
-        systems.append(dict(servers=S, clients=C, put_count=P, network=net, lossy=lossy, max_states=3000 if q else 20000))
+    for (S, C, P, net, lossy, wo) in plans + [(1, 2, 2, "nondup", False, False)]:
+        systems.append(dict(servers=S, clients=C, put_count=P, network=net, lossy=lossy, wo=wo, max_states=3000 if q else 20000))
     sp = os.path.join(wd, "systems.ndjson")
     rp = os.path.join(wd, "recs.ndjson")
     op = os.path.join(wd, "out.json")
     write_ndjson(sp, systems)
-    run_vh(["register", "--in", sp, "--out", rp], timeout=3000)
-    recs = read_ndjson(rp)
+    # the plain and the write-once harness are two different actor types: run each on its systems, keep the system index
+    recs = []
+    for mode, flag in (("register", False), ("wo_register", True)):
+        idx = [i for i, s_ in enumerate(systems) if s_["wo"] == flag]
+        if not idx:
+            continue
+        sp_m, rp_m = os.path.join(wd, "sys-%s.ndjson" % mode), os.path.join(wd, "recs-%s.ndjson" % mode)
+        write_ndjson(sp_m, [systems[i] for i in idx])
+        run_vh([mode, "--in", sp_m, "--out", rp_m], timeout=3000)
+        for x in read_ndjson(rp_m):
+            x["sys"] = idx[x["sys"] - 1] + 1
+            recs.append(x)
+    write_ndjson(rp, recs)
     for x in recs:
         if x.get("summary") and x.get("panicked"):
             res.violation("panic/register_harness", dict(check="panic", system=systems[x["sys"] - 1]))
@@ -233,5 +246,5 @@ def c18(res):
                 "request at most once, any order, any value, or never) on all network kinds: every reachable state of the real "
                 "model: recorded tester history = projection of the client-visible message log, well-formed, one outstanding "
                 "operation, fresh ids; the same system is model-checked as a TLA+ spec (MCRegisterHarness)")
-    res.assumptions += ["the write-once variant (WORegisterActor) shares the client code path; only its reference object and its "
-                        "server adapter (C15) are exercised, not a separate harness model"]
+    res.assumptions += ["request ids, values and destinations of the clients are judged against the documented protocol (k * client id, "
+                        "'A'+k then 'Z'-k, round-robin servers)"]
